@@ -192,3 +192,84 @@ def write_evidence(prop, tier, seed, level, coverage, wall, violations, assumpti
               wall_s=round(wall, 2), violations=violations)
     with open(os.path.join(EVID, prop + '.json'), 'w') as f:
         json.dump(ev, f, indent=1)
+
+# ---------------------------------------------------------------- matcher drivers (C10, C11)
+
+def probe_compile(exprs, work, std='c++14', prelude=''):
+    """each expression in its own -fsyntax-only translation unit; returns list of (ok, output)"""
+    os.makedirs(work, exist_ok=True)
+    jobs = []
+    for i, e in enumerate(exprs):
+        src = os.path.join(work, 'probe_%d.cpp' % i)
+        with open(src, 'w') as f:
+            f.write('#include <trompeloeil.hpp>\n#include <vector>\n#include <list>\nusing trompeloeil::_;\n%s\n'
+                    'bool probe_f(std::list<int>& l) { auto m = %s; return trompeloeil::param_matches(m, std::ref(l)); }\n' % (prelude, e))
+        jobs.append((['g++', '-std=' + std, '-fsyntax-only', '-I' + INCLUDE, src], work))
+    return [(rc == 0, out) for rc, out in compile_many(jobs)]
+
+def build_match(what, tier, seed, skip=()):
+    """driver evaluating the real matchers for the generated catalogue ('scalar' or 'range')"""
+    import gen_match
+    srcs = [os.path.join(HARNESS, 'gen_match.py')]
+    h = tree_hash(srcs)
+    if skip:
+        h += '-' + hashlib.sha1(','.join(sorted(skip)).encode()).hexdigest()[:6]
+    d = os.path.join(BUILD, 'match-%s-%s-%d-%s' % (what, tier, seed, h))
+    exe = os.path.join(d, 'drv_match')
+    with Lock(os.path.join(BUILD, 'match-%s.lock' % what)):
+        if os.path.exists(exe):
+            os.utime(d)
+            return d
+        t0 = time.time()
+        shutil.rmtree(d, ignore_errors=True)
+        n = gen_match.emit(d, what, tier, seed, skip)
+        cpps = sorted(f for f in os.listdir(d) if f.endswith('.cpp'))
+        flags = ['-std=c++14', '-O0', '-I' + INCLUDE]
+        res = compile_many([(['g++'] + flags + ['-c', c, '-o', c + '.o'], d) for c in cpps])
+        bad = [(c, r) for c, r in zip(cpps, res) if r[0] != 0]
+        if bad:
+            msg = bad[0][1]
+            shutil.rmtree(d, ignore_errors=True)
+            raise BuildError('matcher driver (%s) does not compile against the current /repo/include:\n%s' % (what, msg[-3000:]))
+        p = subprocess.run(['g++'] + [c + '.o' for c in cpps] + ['-o', 'drv_match'], cwd=d,
+                           stdout=subprocess.PIPE, stderr=subprocess.STDOUT, text=True)
+        if p.returncode != 0:
+            shutil.rmtree(d, ignore_errors=True)
+            raise BuildError(p.stdout[-3000:])
+        for c in cpps:
+            os.unlink(os.path.join(d, c + '.o'))
+        log('built %s matcher driver (%d terms) in %.0fs' % (what, n, time.time() - t0))
+        prune_builds('match-%s-%s' % (what, tier), keep=2)
+        return d
+
+def validate_generic(module, cfg, norm_path, work, tag):
+    verdict = os.path.join(work, tag + '.verdict')
+    if os.path.exists(verdict):
+        os.unlink(verdict)
+    rc, out = tlc(module, cfg, work, env={'TRACE': norm_path, 'VERDICT': verdict}, workers=1, timeout=1800, java_opts='-Xmx6g')
+    if rc != 0 or not os.path.exists(verdict):
+        return dict(error='TLC rc=%d\n%s' % (rc, out[-1500:]))
+    viol = [json.loads(l) for l in open(verdict) if l.strip()]
+    if not viol or viol[-1]['field'] != 'END':
+        return dict(error='validator did not finish')
+    return dict(viol=viol[:-1], consumed=viol[-1]['got'])
+
+def build_print(tier):
+    import gen_print
+    srcs = [os.path.join(HARNESS, 'gen_print.py')]
+    h = tree_hash(srcs)
+    d = os.path.join(BUILD, 'print-%s-%s' % (tier, h))
+    exe = os.path.join(d, 'drv_print')
+    with Lock(os.path.join(BUILD, 'print.lock')):
+        if os.path.exists(exe):
+            os.utime(d)
+            return d
+        shutil.rmtree(d, ignore_errors=True)
+        gen_print.emit(d, tier)
+        p = subprocess.run(['g++', '-std=c++14', '-O0', '-g', '-fsanitize=address,undefined', '-fno-sanitize-recover=undefined',
+                            '-I' + INCLUDE, 'print.cpp', '-o', 'drv_print'], cwd=d, stdout=subprocess.PIPE, stderr=subprocess.STDOUT, text=True)
+        if p.returncode != 0:
+            shutil.rmtree(d, ignore_errors=True)
+            raise BuildError('print driver does not compile against the current /repo/include:\n' + p.stdout[-3000:])
+        prune_builds('print-%s' % tier, keep=2)
+        return d
